@@ -37,12 +37,24 @@ def REAL(**kw):
 
 
 # ------------------------------------------------------------- adapters
+def _is_da(env, ds):
+    if env.mode == "sym":
+        return isinstance(ds, mx.DataArray)
+    import xarray
+
+    return isinstance(ds, xarray.DataArray)
+
+
 def ds_dims(env, ds, var):
+    if _is_da(env, ds):               # a sweep of DataArray results is a DataArray (named like the results)
+        return tuple(ds.dims) if ds.name == var else None
     return tuple(ds[var].dims)
 
 
 def ds_coord(env, ds, dim):
     if env.mode == "sym":
+        if isinstance(ds, mx.DataArray):
+            return list(ds.coords_[dim]) if dim in ds.coords_ and dim not in ds.nocoord else None
         return list(ds._coords[dim]) if dim in ds._coords and dim not in ds._nocoord else None
     return [x.item() if hasattr(x, "item") else x for x in ds[dim].values] if dim in ds.coords else None
 
@@ -50,9 +62,10 @@ def ds_coord(env, ds, dim):
 def ds_value(env, ds, var, labels):
     """the cell of `var` at {dim: label}"""
     if env.mode == "sym":
-        da = ds._vars[var]
+        da = ds if isinstance(ds, mx.DataArray) else ds._vars[var]
         return da.cells[tuple(labels[d] for d in da.dims)]
-    v = ds[var].sel(labels).values.item()
+    da = ds if _is_da(env, ds) else ds[var]
+    v = da.sel(labels).values.item()
     return v
 
 
